@@ -251,12 +251,18 @@ WrClose ==
 WrTurn == WrPayload \/ WrHeaderPart \/ WrHeaderEnd
 
 -----------------------------------------------------------------------------
+ScanAny ==
+    \E dir \in BOOLEAN, hdr \in HdrLens, size \in Sizes, parent \in 0..N :
+        N < MaxEntries /\ ScanEntry(dir, hdr, size, parent)
+
+ResizeAny ==
+    \E e \in 1..N : \E n \in 0..(entries[e].size + (IF WithGrow THEN 1 ELSE 0)) :
+        resized < MaxResize /\ (WithGrow \/ n < srcLen[e]) /\ SourceResize(e, n)
+
 Next ==
-    \/ \E dir \in BOOLEAN, hdr \in HdrLens, size \in Sizes, parent \in 0..N :
-          N < MaxEntries /\ ScanEntry(dir, hdr, size, parent)
+    \/ ScanAny
     \/ NewReader
-    \/ \E e \in 1..N : \E n \in 0..(entries[e].size + (IF WithGrow THEN 1 ELSE 0)) :
-          resized < MaxResize /\ (WithGrow \/ n < srcLen[e]) /\ SourceResize(e, n)
+    \/ ResizeAny
     \/ \E n \in ReadSizes : RdBegin(n)
     \/ RdTurn
     \/ RdClose
